@@ -69,8 +69,8 @@ impl Property for C05 {
         prop_oneof![
             4 => (curve2_spec(2, 60, -3.0, 3.0, false), mode()).prop_map(|(spec, mode)| Case::Resample2 { spec, mode }),
             2 => (curve3_spec(2, 60, -3.0, 3.0, false), mode()).prop_map(|(spec, mode)| Case::Resample3 { spec, mode }),
-            2 => (curve2_spec(3, 60, -3.0, 3.0, false), logu(-4.0, -0.5)).prop_map(|(spec, e)| Case::Simplify2 { spec, e }),
-            1 => (curve3_spec(3, 60, -3.0, 3.0, false), logu(-4.0, -0.5)).prop_map(|(spec, e)| Case::Simplify3 { spec, e }),
+            2 => (curve2_spec(3, 60, -3.0, 3.0, false), prop_oneof![4 => logu(-4.0, -0.5), 1 => logu(-0.5, 0.5)]).prop_map(|(spec, e)| Case::Simplify2 { spec, e }),
+            1 => (curve3_spec(3, 60, -3.0, 3.0, false), prop_oneof![4 => logu(-4.0, -0.5), 1 => logu(-0.5, 0.5)]).prop_map(|(spec, e)| Case::Simplify3 { spec, e }),
             1 => raw,
             1 => (polyline2(2, 30, 1.0), unif(0.05, 2.0)).prop_map(|((_, pts), max)| Case::FillGaps2 { pts, max }),
             1 => (polyline3(2, 30, 1.0), unif(0.05, 2.0)).prop_map(|((_, pts), max)| Case::FillGaps3 { pts, max }),
@@ -353,6 +353,15 @@ fn simplify2(spec: &Curve2Spec, efrac: f64) -> Verdict {
     };
     let src: Vec<Pt<2>> = b.curve.points().to_vec();
     let e = (efrac * bbox_diag(&src)).max(8.0 * spec.tol);
+    // a tolerance of the order of the curve's own size asks for a closed curve to collapse to a point, which is not
+    // a curve: outside the domain (open curves collapse to their two end points, which is)
+    if b.closed && efrac > 0.3163 {
+        return Verdict::Discard("closed curve with a tolerance of the order of its size");
+    }
+    if !b.closed && (src[0] - src[src.len() - 1]).norm() <= 100.0 * spec.tol && efrac > 0.3163 {
+        return Verdict::Discard("open curve with coincident ends and a tolerance of the order of its size");
+    }
+    cx.label_if(efrac > 0.3163, "tolerance_of_the_order_of_the_size");
     let r = match guarded(|| b.curve.simplify(e)) {
         Ok(r) => r,
         Err(m) => return Verdict::fail(format!("C05/simplify2/panic/{}", if b.closed { "closed" } else { "open" }), format!("simplify({e:e}) on a {} curve with {} vertices panicked: {m}", if b.closed { "closed" } else { "open" }, src.len())),
@@ -381,13 +390,16 @@ fn simplify3(spec: &Curve3Spec, efrac: f64) -> Verdict {
     };
     let src: Vec<Pt<3>> = b.curve.points().to_vec();
     let e = (efrac * bbox_diag(&src)).max(8.0 * spec.tol);
+    if (src[0] - src[src.len() - 1]).norm() <= 100.0 * spec.tol && efrac > 0.3163 {
+        return Verdict::Discard("open curve with coincident ends and a tolerance of the order of its size");
+    }
+    cx.label_if(efrac > 0.3163, "tolerance_of_the_order_of_the_size");
     let r = match guarded(|| b.curve.simplify(e)) {
         Ok(r) => r,
         Err(m) => return Verdict::fail("C05/simplify3/panic", format!("simplify({e:e}) on a 3D curve with {} vertices panicked: {m}", src.len())),
     };
-    // Curve3::simplify rebuilds the curve with the simplification tolerance as curve tolerance, so vertices
-    // within e of the previous kept vertex may additionally be merged: still within e of the result.
-    match validate_simplified("simplify3", &src, r.points(), e, e) {
+    // the simplified curve keeps both end points exactly (up to the curve's own de-duplication tolerance, as in 2D)
+    match validate_simplified("simplify3", &src, r.points(), e, spec.tol) {
         Ok(d) => {
             cx.label_if(d > 0, "discarded>0");
             if d > 0 {
